@@ -7,6 +7,15 @@ ON_ROTATION_CHANGE_EVENT_NAME = 'on_rotation_change'
 ON_SCALE_CHANGE_EVENT_NAME = 'on_scale_change'
 
 
+def _reduce_angle(degrees: float) -> float:
+    """Reduce an angle to the interval [0, 360).
+
+    For tiny negative angles ``%`` rounds up to 360 itself.
+    """
+    reduced = degrees % 360.
+    return reduced if reduced < 360. else 0.
+
+
 class Transform2D(EventDispatcher):
     """Spatial component: position, rotation and scale in a 2D world.
 
@@ -31,7 +40,7 @@ class Transform2D(EventDispatcher):
         super().__init__()
 
         self._position: dmath.Vec2 = dmath.Vec2(*position)
-        self._rotation: float = rotation % 360.
+        self._rotation: float = _reduce_angle(rotation)
         self._scale: dmath.Vec2 = dmath.Vec2(*scale)
 
     @property
@@ -49,7 +58,7 @@ class Transform2D(EventDispatcher):
 
     @rotation.setter
     def rotation(self, value):
-        self._rotation = value % 360.
+        self._rotation = _reduce_angle(value)
         self.dispatch(ON_ROTATION_CHANGE_EVENT_NAME, self._rotation)
 
     @property
